@@ -147,7 +147,8 @@ def gen_cases(rng, tier):
                 ops = ops + scen
             else:
                 ops = scen + ops
-        gp_ = [p_ for p_ in spec["params"] if not p_.get("grid") and p_.get("role") != "horizon"]
+        # (global parameters and per-interval ones alike: a guess may be written in terms of either)
+        gp_ = [p_ for p_ in spec["params"] if p_.get("role") != "horizon" and (not p_.get("grid") or p_["shape"][1] == 1)]
         tg_ = [s_ for s_ in spec["controls"] if s_["shape"][1] == 1]
         if i % 5 == 2 and gp_ and tg_:
             # scenario family: a guess written in terms of a parameter whose value changes after a transcription
